@@ -432,6 +432,8 @@ class Output(InputOutput):
             .verify(signature, digest)
 
     def is_signed_by(self, channel: 'Output', ledger=None):
+        if self.signable.signing_channel_hash != channel.claim_hash:
+            return False
         return self.is_signature_valid(
             self.signable.signature,
             self.get_signature_digest(ledger),
